@@ -250,4 +250,146 @@ mod native {
             assert!(matches!(m, Ok(Err(_))), "metainfo parser panicked / accepted: {:?}", std::str::from_utf8(input));
         }
     }
+
+    // C16, BOUNDED-EXHAUSTIVE differential check of the REAL decoder (BDecoder::from_array is outside the Verus subset: iterator
+    // adapters over Enumerate<Iter<u8>>; and CBMC does not get through parse_byte_str even at 2 bytes).  Oracle = the bencode
+    // grammar written out below.  Every byte string over the alphabets/lengths listed in `native_c16_differential_small_inputs`
+    // is decoded by the real code and by the oracle; verdict (accept / reject) and, on accept, the VALUES must agree.
+    //   * inputs the grammar rejects only because a list/dictionary is not terminated are skipped here: that is the recorded
+    //     finding D12b, witnessed by native_c16_unterminated_containers_rejected;
+    //   * inputs whose verdict hinges on a leading zero in a byte-string LENGTH are skipped (the property names non-canonical
+    //     integers only).
+    #[derive(Debug, Clone, PartialEq)]
+    enum V { Int(i64), Str(Vec<u8>), List(Vec<V>), Dict(Vec<(Vec<u8>, V)>) }
+    #[derive(Debug, PartialEq)]
+    enum No { Reject, DontCare }
+    fn o_values(b: &[u8], mut i: usize, in_container: bool, eof_closes: bool) -> Result<(Vec<V>, usize), No> {
+        let mut out = vec![];
+        loop {
+            if i == b.len() {
+                return if !in_container || eof_closes { Ok((out, i)) } else { Err(No::Reject) };
+            }
+            match b[i] {
+                b'e' => return if in_container { Ok((out, i + 1)) } else { Err(No::Reject) },
+                b'i' => {
+                    let mut j = i + 1;
+                    while j < b.len() && b[j] != b'e' { j += 1; }
+                    if j == b.len() { return Err(No::Reject); }
+                    let t = &b[i + 1..j];
+                    let digits = if t.first() == Some(&b'-') { &t[1..] } else { t };
+                    if digits.is_empty() || !digits.iter().all(|c| c.is_ascii_digit()) { return Err(No::Reject); }
+                    if digits[0] == b'0' && (digits.len() > 1 || t[0] == b'-') { return Err(No::Reject); }
+                    let mut mag: i128 = 0;
+                    for c in digits { mag = mag * 10 + (*c - b'0') as i128; if mag > (1i128 << 70) { return Err(No::Reject); } }
+                    let val = if t[0] == b'-' { -mag } else { mag };
+                    if val < i64::MIN as i128 || val > i64::MAX as i128 { return Err(No::Reject); }
+                    out.push(V::Int(val as i64));
+                    i = j + 1;
+                }
+                b'0'..=b'9' => {
+                    let mut j = i;
+                    while j < b.len() && b[j] != b':' { j += 1; }
+                    if j == b.len() { return Err(No::Reject); }
+                    let t = &b[i..j];
+                    if !t.iter().all(|c| c.is_ascii_digit()) { return Err(No::Reject); }
+                    if t.len() > 1 && t[0] == b'0' { return Err(No::DontCare); }
+                    let mut len: u128 = 0;
+                    for c in t { len = len * 10 + (*c - b'0') as u128; if len > (1u128 << 70) { return Err(No::Reject); } }
+                    if len > (b.len() - (j + 1)) as u128 { return Err(No::Reject); }
+                    let len = len as usize;
+                    out.push(V::Str(b[j + 1..j + 1 + len].to_vec()));
+                    i = j + 1 + len;
+                }
+                b'l' => { let (vs, k) = o_values(b, i + 1, true, eof_closes)?; out.push(V::List(vs)); i = k; }
+                b'd' => {
+                    let (vs, k) = o_values(b, i + 1, true, eof_closes)?;
+                    if vs.len() % 2 != 0 { return Err(No::Reject); }
+                    let mut kv = vec![];
+                    for c in vs.chunks(2) {
+                        match &c[0] { V::Str(k) => kv.push((k.clone(), c[1].clone())), _ => return Err(No::Reject) }
+                    }
+                    out.push(V::Dict(kv));
+                    i = k;
+                }
+                _ => return Err(No::Reject),
+            }
+        }
+    }
+    fn same(real: &crate::BValue, o: &V) -> bool {
+        match (real, o) {
+            (crate::BValue::Int(a), V::Int(b)) => a == b,
+            (crate::BValue::ByteStr(a), V::Str(b)) => a == b,
+            (crate::BValue::List(a), V::List(b)) => a.len() == b.len() && a.iter().zip(b.iter()).all(|(x, y)| same(x, y)),
+            (crate::BValue::Dict(a), V::Dict(b)) => {
+                // key order and uniqueness are not enforced: every key of the document is present with the value of ONE of its
+                // occurrences, and nothing else is
+                b.iter().all(|(k, _)| a.contains_key(k))
+                    && a.iter().all(|(k, v)| b.iter().any(|(k2, v2)| k == k2 && same(v, v2)))
+            }
+            _ => false,
+        }
+    }
+    // returns 0 = skipped, 1 = agreed on reject, 2 = agreed on accept
+    fn diff_one(input: &[u8]) -> u8 {
+        let strict = o_values(input, 0, false, false).map(|x| x.0);
+        let real = std::panic::catch_unwind(|| crate::BDecoder::from_array(input));
+        let real = match real { Ok(r) => r, Err(_) => panic!("decoder PANICKED on {:?}", String::from_utf8_lossy(input)) };
+        match strict {
+            Err(No::DontCare) => 0,
+            Err(No::Reject) => {
+                if o_values(input, 0, false, true).is_ok() { return 0; }   // unterminated container: finding D12b
+                assert!(real.is_err(), "ill-formed input ACCEPTED: {:?} -> {:?}", String::from_utf8_lossy(input), real);
+                1
+            }
+            Ok(vs) => {
+                match real {
+                    Err(e) => panic!("well-formed input REJECTED: {:?} -> {:?}", String::from_utf8_lossy(input), e),
+                    Ok(rs) => assert!(rs.len() == vs.len() && rs.iter().zip(vs.iter()).all(|(x, y)| same(x, y)),
+                        "well-formed input decoded to the WRONG VALUES: {:?} -> {:?}, grammar says {:?}", String::from_utf8_lossy(input), rs, vs),
+                }
+                2
+            }
+        }
+    }
+    fn all_strings(alphabet: &[u8], max_len: usize, f: &mut dyn FnMut(&[u8])) {
+        let mut buf = vec![];
+        for len in 0..=max_len {
+            buf.resize(len, alphabet[0]);
+            let mut idx = vec![0usize; len];
+            loop {
+                for k in 0..len { buf[k] = alphabet[idx[k]]; }
+                f(&buf);
+                let mut k = 0;
+                while k < len { idx[k] += 1; if idx[k] < alphabet.len() { break; } idx[k] = 0; k += 1; }
+                if k == len { break; }
+            }
+        }
+    }
+    #[test]
+    fn native_c16_differential_small_inputs() {
+        let (mut skipped, mut rejected, mut accepted, mut dup_key_docs) = (0u64, 0u64, 0u64, 0u64);
+        let mut run = |s: &[u8]| {
+            match diff_one(s) { 0 => skipped += 1, 1 => rejected += 1, _ => {
+                accepted += 1;
+                if let Ok(vs) = o_values(s, 0, false, false) {
+                    if vs.0.iter().any(|v| matches!(v, V::Dict(kv) if kv.len() == 2 && kv[0].0 == kv[1].0)) { dup_key_docs += 1; }
+                }
+            } }
+        };
+        all_strings(b"ilde01-:a", 7, &mut run);      // every construct, all strings up to 7 bytes: 5 380 840 inputs
+        all_strings(b"d0:e", 11, &mut run);          // dictionaries with (repeated) empty keys, up to 11 bytes: 5 592 405 inputs
+        all_strings(b"l1:ei", 9, &mut run);          // nested lists / strings / ints, up to 9 bytes: 2 441 406 inputs
+        // integers at the edges of i64 / u64 (in and out of range, signed, with leading zeros, bare and inside a list)
+        for digits in ["9223372036854775806", "9223372036854775807", "9223372036854775808", "9223372036854775809",
+                       "18446744073709551614", "18446744073709551615", "18446744073709551616", "99999999999999999999",
+                       "100000000000000000000000", "1", "0", "10", "2147483648", "4294967296"] {
+            for sign in ["", "-"] { for lead in ["", "0", "00"] { for wrap in [("", ""), ("l", "e"), ("d1:a", "e")] {
+                let s = format!("{}i{}{}{}e{}", wrap.0, sign, lead, digits, wrap.1);
+                run(s.as_bytes());
+            } } }
+        }
+        // the check is not vacuous: all three verdicts occur, and documents repeating a dictionary key were among the accepted
+        assert!(accepted > 1000 && rejected > 1_000_000 && skipped > 0 && dup_key_docs > 0,
+            "accepted {} rejected {} skipped {} dup-key documents {}", accepted, rejected, skipped, dup_key_docs);
+    }
 }
